@@ -31,6 +31,69 @@ func normEnum(n string) string {
 
 func c06() []*Ob {
 	return []*Ob{
+		{Prop: "C06", ID: "C06.8", Engine: "FIELDS(read/maintained)", Floor: 6,
+			Desc: "every number an aggregator reports is one it keeps: for each aggregator type of frac/processor, every counter or table of the receiver (integer or map field) that Aggregate reads is written by Next (directly or through a helper) — a counter that is read into the result but never incremented (the not-exists count of the group, lost with the one line that bumped it) is reported as 0 whatever the documents were",
+			Check: func(c *Ctx) {
+				n := 0
+				for _, agg := range c.P.FuncsInPkg("frac/processor") {
+					if agg.Name() != "Aggregate" || agg.Signature.Recv() == nil || agg.Blocks == nil {
+						continue
+					}
+					recv := agg.Signature.Recv().Type()
+					ptr, ok := recv.(*types.Pointer)
+					if !ok {
+						continue
+					}
+					named, ok := ptr.Elem().(*types.Named)
+					if !ok {
+						continue
+					}
+					st, ok := named.Underlying().(*types.Struct)
+					if !ok {
+						continue
+					}
+					var next *ssa.Function
+					for _, f := range c.P.FuncsInPkg("frac/processor") {
+						if f.Name() == "Next" && f.Signature.Recv() != nil && types.Identical(f.Signature.Recv().Type(), recv) {
+							next = f
+						}
+					}
+					if next == nil {
+						continue
+					}
+					typ := NamedTypeString(named)
+					for i := 0; i < st.NumFields(); i++ {
+						f := st.Field(i)
+						isCounter := false
+						switch u := f.Type().Underlying().(type) {
+						case *types.Basic:
+							isCounter = u.Info()&types.IsInteger != 0
+						case *types.Map:
+							isCounter = true
+						}
+						if !isCounter || !c.P.Has(agg, FieldLoad(typ, f.Name())) {
+							continue
+						}
+						n++
+						written := c.P.Has(next, FieldStore(typ, f.Name())) || c.P.Has(next, func(in ssa.Instruction) bool {
+							mu, ok := in.(*ssa.MapUpdate)
+							return ok && ValueIsField(mu.Map, typ, f.Name())
+						}) || c.P.Has(next, func(in ssa.Instruction) bool {
+							// a pointer-valued entry of a map field that is updated in place (histogram[mid].NotExists++ ...)
+							lk, ok := in.(*ssa.Lookup)
+							return ok && ValueIsField(lk.X, typ, f.Name())
+						})
+						if written {
+							c.Site(next.Pos(), "%s.%s is maintained by Next and reported by Aggregate", typ, f.Name())
+						} else {
+							c.Violation("fields:aggregator:"+typ+"."+f.Name(), agg.Pos(), "%s.Aggregate reports %s, but Next never updates it: the reported value is its initial one whatever documents were seen", typ, f.Name())
+						}
+					}
+				}
+				if n == 0 {
+					c.Undecided("fields:aggregator:none", 0, "no aggregator with counters found in frac/processor")
+				}
+			}},
 		{Prop: "C06", ID: "C06.1", Engine: "ENUMTAB", Floor: 3,
 			Desc: "enum tables agree: seq.AggFunc*, storeapi.AggFunc_* and seqproxyapi.AggFunc_* have the same names with the same values; seq.DocsOrder* and Order_* likewise; the proxy's funcMappings/orderMappings composite literals have one entry per seq constant",
 			Check: func(c *Ctx) {
